@@ -304,6 +304,52 @@ func TestBoundaries(t *testing.T) {
 	vp.CheckCase(t, "c06.addr", Case{}, checkWithFlips)
 }
 
+// TestByteSweep: for every documented network and every byte position, all
+// 256 values of that byte with the other bytes taken from the network base
+// (thorough: additionally all 65536 values of every pair of adjacent bytes).
+func TestByteSweep(t *testing.T) {
+	shard, shards := vp.Shard()
+	var evals, inside int64
+	try := func(b []byte) bool {
+		a, _ := netip.AddrFromSlice(b)
+		evals++
+		in, err := checkAddr(a)
+		if err != nil {
+			vp.Fail(t, "c06.addr", Case{Addr: a}, err)
+			return false
+		}
+		if in {
+			inside++
+		}
+		return true
+	}
+	for ni, n := range allNets() {
+		base := n.Addr().AsSlice()
+		for pos := range base {
+			b := slices.Clone(base)
+			for v := 0; v < 256; v++ {
+				b[pos] = byte(v)
+				if !try(b) {
+					return
+				}
+			}
+			if vp.Thorough() && pos+1 < len(base) && (shards <= 1 || (ni*16+pos)%shards == shard) {
+				b = slices.Clone(base)
+				for v := 0; v < 65536; v++ {
+					b[pos], b[pos+1] = byte(v>>8), byte(v)
+					if !try(b) {
+						return
+					}
+				}
+			}
+		}
+	}
+	vp.EvalN("c06.bytesweep", evals)
+	vp.ClassN("bytesweep:addresses", evals)
+	vp.ClassN("bytesweep:inside-a-listed-network", inside)
+	vp.Exhaustive("for every documented network: every byte position x 256 values (thorough: every adjacent byte pair x 65536 values), other bytes from the network base", true)
+}
+
 // TestIPv4Sweep enumerates IPv4: quick = every /24 block x 9 last octets;
 // thorough = all 2^32 addresses (sharded by the first octet).
 func TestIPv4Sweep(t *testing.T) {
